@@ -1,6 +1,7 @@
 package main
 
 import (
+	"sync"
 	"fmt"
 	"math/rand"
 	"sort"
@@ -41,7 +42,7 @@ func (s l3suite) Gen(r *rand.Rand, sessions int) []string {
 		f := strings.Fields(l)
 		switch f[0] {
 		case "reset":
-			l += " " + pick(r, "R16", "R201") + " " + pick(r, "app", "noapp")
+			l += " " + pick(r, "R16", "R201") + " " + pick(r, "app", "noapp", "appsend")
 			wf = map[string]bool{}
 		case "writefail":
 			if s.server {
@@ -90,6 +91,10 @@ func runL3(server bool, ops []string, emit func(string)) {
 	var waitStart time.Time
 	var waitOldest time.Duration
 	ver := "R16"
+	discOps := 0
+	inDisc := false
+	var hmu sync.Mutex
+	var hpre []string
 	mkcb := func(lg *evlog, tag string) func(ocpp.Response, error) {
 		return func(r ocpp.Response, err error) {
 			if err != nil {
@@ -135,9 +140,12 @@ func runL3(server bool, ops []string, emit func(string)) {
 			if len(f) > 2 {
 				ver = f[2]
 			}
+			appsend := false
 			if len(f) > 3 {
-				app = f[3] == "app"
+				app = f[3] == "app" || f[3] == "appsend"
+				appsend = f[3] == "appsend" && server
 			}
+			discOps = 0
 			lg = &evlog{}
 			lg := lg
 			role := "cp"
@@ -159,6 +167,24 @@ func runL3(server bool, ops []string, emit func(string)) {
 					if fr, err := parseFrame(data); err == nil && fr.Type == 2 {
 						arms.arm(":" + fr.ID)
 						lg.add("wrote::" + fr.ID)
+					}
+				}
+			}
+			if appsend {
+				// the application's disconnect handler sends a request to the client that just went away
+				lgc := lg
+				e.onDisc = func(id string) {
+					if !inDisc {
+						return
+					}
+					hid := fmt.Sprintf("hd%sx%d", id, discOps)
+					nextID = hid
+					hmu.Lock()
+					defer hmu.Unlock()
+					if err := e.sendAsync(id, dataTransferReq(ver), mkcb(lgc, hid)); err != nil {
+						hpre = append(hpre, "rejected:"+id+":"+hid)
+					} else {
+						hpre = append(hpre, "accepted:"+id+":"+hid)
 					}
 				}
 			}
@@ -208,8 +234,11 @@ func runL3(server bool, ops []string, emit func(string)) {
 		case "connect":
 			e.fs.connect(f[1])
 		case "disconnect":
+			discOps++
 			if server {
+				inDisc = true
 				e.fs.disconnect(f[1])
+				inDisc = false
 				arms.dropPrefix(f[1] + ":")
 			} else {
 				e.fc.drop(fmt.Errorf("connection lost"))
@@ -320,6 +349,10 @@ func runL3(server bool, ops []string, emit func(string)) {
 			sort.Strings(d)
 			out = strings.Join(append(w, d...), " ")
 		}
+		hmu.Lock()
+		pre = append(pre, hpre...)
+		hpre = nil
+		hmu.Unlock()
 		if len(pre) > 0 {
 			if out == "-" {
 				out = strings.Join(pre, " ")
